@@ -324,6 +324,14 @@ fn gen(tier: &str, rng: &mut Sm) -> Gen {
             }
         }
     }
+    // one Generation value stepped in parallel inside pools of DIFFERENT sizes, smaller first (nothing may be sized by the
+    // first pool it happened to run in)
+    for size in [7usize, 40] {
+        let pop: Vec<Tree> = (0..size as i64).map(|i| a(i * 11 - 5)).collect();
+        for (m1, m2, m3) in [(1usize, 4usize, 1usize), (2, 8, 16), (1, 16, 2)] {
+            g.inputs.push(tl![au(m1), L(pop.clone()), A(-1), L(vec![tl![au(m2), A(-1)], tl![au(m3), A(-1)], tl![au(m2), a(size as i64 / 2)], tl![au(m2), A(-1)]])]);
+        }
+    }
     // set-typed populations (children collide, the population shrinks and the next step must follow its new size)
     // and double-ended queues, single steps and histories
     for size in [0usize, 1, 4, 6] {
